@@ -43,6 +43,38 @@ CMPOPS = {
 }
 
 
+class T(tuple):
+    """Hash-consed term: cached hash, identity fast-path for equality (terms are DAGs with huge unfolded size)."""
+
+    def __hash__(self):
+        d = self.__dict__
+        h = d.get("h")
+        if h is None:
+            h = d["h"] = tuple.__hash__(self)
+        return h
+
+    def __eq__(self, o):
+        if self is o:
+            return True
+        if isinstance(o, T) and hash(self) != hash(o):
+            return False
+        return tuple.__eq__(self, o)
+
+    def __ne__(self, o):
+        return not self.__eq__(o)
+
+
+_INTERN = {}
+
+
+def I(term):  # noqa: E743
+    """Canonical (interned) instance of a term."""
+    if type(term) is T:
+        return term
+    t = T(term)
+    return _INTERN.setdefault(t, t)
+
+
 class Summary:
     def __init__(self, func):
         self.func = func
@@ -133,6 +165,7 @@ class _Eval:
         return self.sum
 
     def mk(self, term, node):
+        term = I(term)
         if term not in self.b.loc:
             self.b.loc[term] = (self.func, node)
         return term
@@ -281,18 +314,18 @@ class _Eval:
         init_attrs = {n: self.attrs.get(n, ("attr", ("param", "self"), n)) for n in assigned_attrs}
         for n in assigned:
             if n in self.env:
-                body.env[n] = ("loopin", n, lid, self.env[n])
+                body.env[n] = I(("loopin", n, lid, self.env[n]))
         for n in assigned_attrs:
-            body.attrs[n] = ("loopin", "self." + n, lid, init_attrs[n])
+            body.attrs[n] = I(("loopin", "self." + n, lid, init_attrs[n]))
         if var_target is not None:
-            body.store(var_target, ("elem", iter_term, lid), st)
+            body.store(var_target, I(("elem", iter_term, lid)), st)
         body.block(st.body)
         for n in assigned:
-            if n in body.env and body.env[n] != ("loopin", n, lid, init.get(n)):
-                self.env[n] = ("loopout", lid, n, init.get(n) or ("unknown", "unbound"), body.env[n])
+            if n in body.env and not (body.env[n][0] == "loopin" and body.env[n][2] == lid and body.env[n][1] == n):
+                self.env[n] = I(("loopout", lid, n, init.get(n) or ("unknown", "unbound"), body.env[n]))
         for n in assigned_attrs:
             if body.attrs.get(n) is not None:
-                self.attrs[n] = ("loopout", lid, "self." + n, init_attrs[n], body.attrs[n])
+                self.attrs[n] = I(("loopout", lid, "self." + n, init_attrs[n], body.attrs[n]))
         self.sum.returns += body.sum.returns
         if st.orelse:
             self.block(st.orelse)
@@ -340,13 +373,13 @@ class _Eval:
             if va == vb:
                 env[k] = va
             else:
-                env[k] = ("phi", cond, va if va is not None else ("unknown", "unbound"),
-                          vb if vb is not None else ("unknown", "unbound"))
+                env[k] = I(("phi", cond, va if va is not None else ("unknown", "unbound"),
+                            vb if vb is not None else ("unknown", "unbound")))
         attrs = {}
         for k in set(a.attrs) | set(b.attrs):
             va = a.attrs.get(k, ("attr", ("param", "self"), k))
             vb = b.attrs.get(k, ("attr", ("param", "self"), k))
-            attrs[k] = va if va == vb else ("phi", cond, va, vb)
+            attrs[k] = va if va == vb else I(("phi", cond, va, vb))
         self.env, self.attrs = env, attrs
 
     # ---------------------------------------------------------------------------------------
@@ -362,7 +395,7 @@ class _Eval:
                     self.store(e, x, st)
             else:
                 for i, e in enumerate(tgt.elts):
-                    self.store(e, ("sub", v, ("const", i)), st)
+                    self.store(e, I(("sub", v, ("const", i))), st)
         elif isinstance(tgt, ast.Attribute):
             if isinstance(tgt.value, ast.Name) and tgt.value.id == "self" and self.env.get("self") == ("param", "self"):
                 self.attrs[tgt.attr] = v
@@ -478,10 +511,17 @@ class _Eval:
                 parts.append(("const", v.value))
             else:
                 t = self.expr(v.value)
-                if t[0] == "const" and isinstance(t[1], str) and v.format_spec is None and v.conversion == -1:
-                    parts.append(t)
-                else:
-                    parts.append(t)
+                if t[0] == "fstr" and not (v.format_spec is None and v.conversion == -1):
+                    t = ("call", ("global", "format"), (t,), ())
+                parts.append(t)
+        # splice nested templates (a local holding an f-string used inside another f-string)
+        flat = []
+        for p in parts:
+            if p[0] == "fstr":
+                flat.extend(p[1])
+            else:
+                flat.append(p)
+        parts = flat
         # merge adjacent constants
         out = []
         for p in parts:
